@@ -13,6 +13,10 @@ CHECKS = {
    technique="TLA+ spec ProviderCache.tla (writer lock, per-source refresh steps, cancel, miss path, merge rule, TTL clock) model-checked by TLC against declarative convergence/expiry rules; every terminal-state behaviour replayed step-by-step on a real pcache.ProviderCache with gated sources (behaviour replay conformance)",
    text="TLC explores every history within the bounds (2-3 sources, 2-3 providers, record versions, per-source failures, environment changes between the source fetches of one refresh, cancellation at each source index, a second call parked on the writer lock, miss-fetches, negative entries, TTL ticks) and checks the convergence, expiry, negative-entry and merge invariants in every state; the same run exports one behaviour per terminal state and each is executed on the real cache, comparing List/Get/Refresh results and source-call counts after every step. The model of the pinned Refresh is refuted by TLC in the same run (non-vacuity).",
    note="Bounded histories (calls/env changes/ticks per cfg in the evidence); TTL steps use real time with guard bands (disturbed runs are inconclusive, never judged); at most one call parked on the writer lock; TLC + harness trusted."),
+ "C07": dict(level="model_checking", design="6/C07", engine="tlc+harness",
+   technique="TLA+ specs SnapshotReads.tla (reader/publisher model, TLC; torn-read variant refuted) and ProviderCache.tla (writer schedules); reads recorded from real reader goroutines running against gated refreshes are trace-validated by TLC against SnapshotReadsTrace.tla; Go race detector on the same schedules",
+   text="TLC checks on the reader/publisher model that every read is served from exactly one published snapshot inside the read's window and that a reader's snapshot index never decreases (2 readers, 5 publications, update and merge publications); ProviderCache.tla's invariants ReadersNeverBlocked / NoRegress hold in every writer state. The binding replays the exhaustive and the simulated behaviours with reader goroutines calling List/Get/GetResults while the writer is parked inside a source (holding the writer lock) and right before every snapshot Store (yield hooks); a reader that makes no progress is 'blocked where the spec says enabled'; every recorded read is validated by TLC against the publication sequence; the -race build of the same run observes the data-race clause.",
+   note="Schedules are those reachable by parking the writer in sources and at the Store hook; data races are judged by the Go race detector on these schedules only; Get/GetResults readers run only in histories without TTL expiry."),
 }
 PENDING = {
 }
